@@ -13,7 +13,9 @@ insights/core/__init__.py and compared with a boring reference (ref/c14_models.p
               {alpha, beta, both, neither, ""} (+ glued / doubled / other-case lines, one line shorter) for every
               (terms, all|any, num, reverse), on TextFileOutput, LogFileOutput, Syslog, LazyLogFileOutput
   (d) time    get_after on every log of <= 4 (5) lines over stamps around the query time and the year
-              boundary, continuation lines and term-bearing lines, for 8 (9) format kinds
+              boundary, continuation lines and term-bearing lines, for 10 (13) format kinds: one format / a list /
+              a dict of formats, all with a year, all without, and lists / dicts that MIX year-less formats with
+              formats that carry a year (both orders; lines of both styles in one log)
 
 Oracle = what the property states; the lenient cases of DESIGN.md C14 are encoded in the reference
 (json_expect / yaml_expect) and commented there.
@@ -35,7 +37,9 @@ RULE = ("cmd: all contents of 0..3 lines over the phrase x case x position line 
         "documents, all token strings up to the bound, junk list, list and str input, non-trivial = noise present or "
         "multi-line or the outcome is not a value; search: all logs up to the bound x all queries, non-trivial = the "
         "matches are a non-empty proper subset of the lines or the limit truncates; time: all logs up to the bound "
-        "over the distinct rendered symbols x query time x terms x format kind, non-trivial = inclusion switches at "
+        "over the distinct rendered symbols x query time x terms x format kind (string, list, dict; all formats with a "
+        "year, none, or a mix of both given as list and as dict in both orders, the log lines alternating between the "
+        "styles), non-trivial = inclusion switches at "
         "least once, or a continuation line follows a used stamped line, or the year inference moved a stamp")
 ASSUMPTIONS = [
     "json.loads and yaml.load(SafeLoader / CSafeLoader) are trusted as decoders; the wrapper logic around them is what is checked "
@@ -52,16 +56,22 @@ ASSUMPTIONS = [
     "documented start-line heuristic cannot tell them from the document), extra_bad_lines given as a str or in upper case, search "
     "terms of other types than str / non-empty list of str, negative limits, unpadded day numbers ('Jan 1 00:00:00': not "
     "timestamp-shaped under the documented format-to-regex conversion), lines with two timestamps, timestamp-shaped substrings "
-    "that are not valid dates, time format lists mixing formats with and without a year",
+    "that are not valid dates",
+    "time format lists / dicts that mix year-less formats with formats that have a year: a line in a year-less style gets its year "
+    "inferred from the sought time exactly like under a single year-less format (statement: 'with or without year, across a year "
+    "boundary' - strict, no leniency); for a line in a style WITH a year the statement does not say whether its own year counts or "
+    "whether the parser as a whole is 'without year' (documentation: 'detected by the absence of %y or %Y in the time format'), so "
+    "both readings are accepted for such lines - they differ only when the written year is not the inferred one (counted in the "
+    "evidence as time_mixed_explicit_year_reading_would_differ_either_accepted)",
     "bounded: no counterexample within the stated line / token / depth bounds over the stated alphabets, nothing more",
 ]
 BOUNDS = {
     "quick": {"cmd_lines": 3, "cmd_alphabet": 94, "cmd_3line_alphabet": 22, "cmd_extra_settings": 8, "doc_depth": 2, "noise_lines": 2,
               "garbage_tokens": 3, "search_lines": 4, "search_lines_full_alphabet": 3, "time_lines": 4, "time_lines_extra_kinds": 3,
-              "time_formats": 8, "query_times": 4},
+              "time_formats": 10, "time_formats_mixing_year_and_yearless": 2, "query_times": 4},
     "thorough": {"cmd_lines": 3, "cmd_alphabet": 94, "cmd_3line_alphabet": 94, "cmd_extra_settings": 8, "doc_depth": 2, "noise_lines": 2,
                  "garbage_tokens": 4, "search_lines": 5, "search_lines_full_alphabet": 4, "time_lines": 5, "time_lines_extra_kinds": 4,
-                 "time_formats": 9, "query_times": 5},
+                 "time_formats": 13, "time_formats_mixing_year_and_yearless": 4, "query_times": 5},
 }
 CAP_S = {"quick": 300, "thorough": 3600}
 
@@ -712,6 +722,8 @@ F_M = "%m/%d %H:%M:%S"
 F_P = "%d/%m/%Y %I:%M:%S %p"          # 12-hour clock with AM/PM
 F_F = "%Y-%m-%d %H:%M:%S.%f"          # fractional seconds
 # name -> (base class, time_format or None to keep the class's own, formats used for rendering by symbol parity, have_year)
+# have_year = True / False when all formats agree, "mixed" when some formats carry a year and some do not: then every line
+# is judged by the format it is written in (fmt_has_year of its rendering format)
 TIME_FORMATS = {
     "default": ("LogFileOutput", None, [F_A], True),
     "syslog": ("Syslog", None, ["S_"], False),          # day of month space padded, as syslog writes it
@@ -723,10 +735,29 @@ TIME_FORMATS = {
     "lazy": ("LazyLogFileOutput", None, [F_A], True),
     "ampm": ("LogFileOutput", F_P, [F_P], True),
     "micro": ("LogFileOutput", F_F, [F_F], True),
+    # a daemon that changed its stamp style: year-less and with-year formats in ONE parser, as list and as dict, the
+    # year-less format first / last (symbol parity swaps with the order, so every symbol occurs in both styles), and
+    # three formats with one / two year-less members
+    "mixed_list": ("LogFileOutput", [F_S, F_A], [F_S, F_A], "mixed"),
+    "mixed_dict": ("LogFileOutput", {"new": F_A, "old": F_S}, [F_A, F_S], "mixed"),
+    "mixed3": ("LogFileOutput", [F_B, F_M, F_C], [F_B, F_M, F_C], "mixed"),
+    "mixed3_dict": ("LogFileOutput", {"a": F_M, "b": F_A, "c": F_S}, [F_M, F_A, F_S], "mixed"),
 }
-TIME_FORMAT_NAMES = {"quick": ["default", "syslog", "syslog0", "list", "dict", "lazy", "ampm", "micro"],
-                     "thorough": ["default", "syslog", "syslog0", "list", "dict", "noyear_list", "lazy", "ampm", "micro"]}
-SHORT_KINDS = ("lazy", "ampm", "micro")
+MIXED_KINDS = ("mixed_list", "mixed_dict", "mixed3", "mixed3_dict")
+TIME_FORMAT_NAMES = {"quick": ["default", "syslog", "syslog0", "list", "dict", "lazy", "ampm", "micro", "mixed_list", "mixed_dict"],
+                     "thorough": ["default", "syslog", "syslog0", "list", "dict", "noyear_list", "lazy", "ampm", "micro"] + list(MIXED_KINDS)}
+# kinds enumerated one line shorter than the main kinds
+SHORT_KINDS = {"quick": ("lazy", "ampm", "micro") + MIXED_KINDS, "thorough": ("lazy", "ampm", "micro", "mixed3", "mixed3_dict")}
+
+
+def fmt_has_year(f):
+    return "%Y" in f or "%y" in f
+
+
+def line_year_flags(fmt, log):
+    """Per line of the log: is the format its stamp is rendered in one with a year?"""
+    rf = TIME_FORMATS[fmt][2]
+    return [fmt_has_year(rf[k % len(rf)]) for k in log]
 QUERY_TIMES = {"quick": [[2021, 6, 15, 12, 0, 0], [2021, 1, 1, 0, 0, 0], [2021, 12, 31, 23, 59, 59], [2024, 1, 1, 0, 0, 0]],
                "thorough": [[2021, 6, 15, 12, 0, 0], [2021, 1, 1, 0, 0, 0], [2021, 12, 31, 23, 59, 59],
                             [2020, 12, 31, 23, 59, 59], [2024, 1, 1, 0, 0, 0]]}
@@ -820,11 +851,30 @@ def check_time(fmt, tq, symset, log, s):
     lines = [syms[k] for k in log]
     have_year = TIME_FORMATS[fmt][3]
     t = datetime.datetime(*tq)
-    exp = M.time_after(lines, t, s, have_year, "year")
-    if M.time_after_2(lines, t, s, have_year, "year") != exp:
-        raise RuntimeError("C14 time references disagree on %r" % ((fmt, tq, symset, log, s),))
-    alt = M.time_after(lines, t, s, have_year, "365")
-    leap_line = (not have_year) and any(st is not None and st[1] == 2 and st[2] == 29 for _x, st, _y in lines)
+    mixed = have_year == "mixed"
+    if mixed:
+        hy = line_year_flags(fmt, log)
+
+        def resolved(own_year_counts, reading):
+            # every stamp replaced by the instant it stands for, so that the reference runs on plain dated lines
+            return [(x, None if st is None else _tup(M.effective_stamp(st, t, h and own_year_counts, reading)), y)
+                    for (x, st, y), h in zip(lines, hy)]
+        r1 = resolved(True, "year")
+        exp = M.time_after(r1, t, s, True, "year")
+        if M.time_after_2(r1, t, s, True, "year") != exp:
+            raise RuntimeError("C14 time references disagree on %r" % ((fmt, tq, symset, log, s),))
+        # second accepted reading for lines written WITH a year (see ASSUMPTIONS): the parser as a whole is year-less
+        exp_b = M.time_after(resolved(False, "year"), t, s, True, "year")
+        alt = M.time_after(resolved(True, "365"), t, s, True, "year")
+        accepted = [exp] if exp_b == exp else [exp, exp_b]
+    else:
+        hy = [have_year] * len(lines)
+        exp = M.time_after(lines, t, s, have_year, "year")
+        if M.time_after_2(lines, t, s, have_year, "year") != exp:
+            raise RuntimeError("C14 time references disagree on %r" % ((fmt, tq, symset, log, s),))
+        alt = M.time_after(lines, t, s, have_year, "365")
+        accepted = [exp]
+    leap_line = any(st is not None and st[1] == 2 and st[2] == 29 and not h for (_x, st, _y), h in zip(lines, hy))
     feats = {"part": "time", "fmt": fmt, "have_year": have_year, "leap_day_line": bool(leap_line)}
     v = []
     texts = [x[0] for x in lines]
@@ -853,19 +903,22 @@ def check_time(fmt, tq, symset, log, s):
     # dates, i.e. the adjacent-YEAR reading of the rollover note. (The first version also accepted the docstring's literal
     # "shift by 365 days", which is wrong in leap years; a seeded change implementing exactly that showed the leniency
     # was weaker than the statement. `alt` is kept only to measure how often the two readings differ.)
-    if got is not None and got != exp:
-        v.append(("time:lines-at-or-after-plus-continuations", exp, got, feats))
+    if got is not None and got not in accepted:
+        v.append(("time:lines-at-or-after-plus-continuations", exp if len(accepted) == 1 else {"either": accepted}, got, feats))
     elif got is not None and again is not None and again != got:
         v.append(("time:second-search-on-same-object", got, again, feats))
     if got is not None and p.lines != texts:
         v.append(("time:lines-unchanged", texts, p.lines, feats))
     # measured non-triviality
-    used = [x for x in lines if s is None or all(w in x[0] for w in ([s] if isinstance(s, str) else s))]
-    flags = [M.effective_stamp(st, t, have_year) >= t for _x, st, _y in used if st is not None]
-    moved = (not have_year) and any(M.effective_stamp(st, t, False).year != t.year for _x, st, _y in used if st is not None)
+    usedh = [(x, h) for x, h in zip(lines, hy) if s is None or all(w in x[0] for w in ([s] if isinstance(s, str) else s))]
+    used = [x for x, _h in usedh]
+    flags = [M.effective_stamp(st, t, h) >= t for (_x, st, _y), h in usedh if st is not None]
+    moved = any((not h) and M.effective_stamp(st, t, False).year != t.year for (_x, st, _y), h in usedh if st is not None)
     cont_after = any(used[i][1] is None and used[i - 1][1] is not None for i in range(1, len(used)))
     meta = {"nt": len(set(flags)) > 1 or moved or cont_after,
-            "out": "time:%s:%d/%d" % (fmt, len(exp), len(lines)), "loose": alt != exp}
+            "out": "time:%s:%d/%d" % (fmt, len(exp), len(lines)), "loose": alt != exp,
+            "both_styles": mixed and len(set(h for (_x, st, _y), h in usedh if st is not None)) > 1,
+            "readings_differ": len(accepted) > 1}
     return v, meta
 
 
@@ -1002,7 +1055,7 @@ def run_unit(unit, tier):
             logs = [()]
             terms = TIME_TERMS
         else:
-            logs = time_logs(canon, unit["first"], BOUNDS[tier]["time_lines"] - (1 if fmt in SHORT_KINDS else 0))
+            logs = time_logs(canon, unit["first"], BOUNDS[tier]["time_lines"] - (1 if fmt in SHORT_KINDS[tier] else 0))
             terms = TIME_TERMS
         for lg in logs:
             if symset == "base" and len(lg) <= EMPTY_TERM_MAX_LINES:
@@ -1023,9 +1076,13 @@ def run_unit(unit, tier):
                 res.outcomes.add(meta["out"])
                 if meta["loose"]:
                     res.stat("time_rollover_365_reading_would_differ")
+                if meta["both_styles"]:
+                    res.stat("cases_time_log_has_yearless_and_with_year_stamps")
+                if meta["readings_differ"]:
+                    res.stat("time_mixed_explicit_year_reading_would_differ_either_accepted")
                 if v:
                     _viol(res, {"part": "time", "fmt": fmt, "t": tq, "symset": symset, "log": list(lg), "s": s}, v)
-        if symset == "base" and fmt not in SHORT_KINDS:
+        if symset == "base" and fmt not in SHORT_KINDS[tier]:
             res.maxi("time_log_lines_completed", BOUNDS[tier]["time_lines"])
         if symset == "base" and unit["first"] == 0:
             res.samples.append({"part": "time", "fmt": fmt, "t": tq, "symset": "base", "log": [0, 5, 2, 5], "s": None})
@@ -1075,6 +1132,14 @@ def _refcheck(tier):
     n = 0
     for fmt in TIME_FORMAT_NAMES[tier]:
         base, tf, rf, have_year = TIME_FORMATS[fmt]
+        # vacuity guard: the kind is what its name says, and the class is configured with exactly the rendering formats
+        kinds_of_year = set(fmt_has_year(f) for f in rf)
+        if (kinds_of_year != {True, False}) if have_year == "mixed" else (kinds_of_year != {have_year}):
+            raise RuntimeError("C14 time format kind %s: have_year %r does not describe %r" % (fmt, have_year, rf))
+        if tf is not None:
+            given = [tf] if isinstance(tf, str) else list(tf.values()) if isinstance(tf, dict) else list(tf)
+            if sorted(given) != sorted(rf):
+                raise RuntimeError("C14 time format kind %s renders %r but configures %r" % (fmt, rf, given))
         for tq in QUERY_TIMES[tier] + LEAP_QUERY_TIMES:
             for symset in ("base", "leap"):
                 syms, _c = time_alphabet(fmt, tuple(tq), symset)
@@ -1086,7 +1151,7 @@ def _refcheck(tier):
                     stamp_text = text[:text.index(" host")]
                     if stamp_text.startswith("<13>["):
                         stamp_text = stamp_text[5:-1]
-                    if have_year:
+                    if fmt_has_year(f):
                         back = datetime.datetime.strptime(stamp_text, f)
                         ok = _tup(back) == tuple(st)
                     else:
@@ -1122,7 +1187,7 @@ TECHNIQUE = ("bounded exhaustive enumeration of parser inputs (command outputs, 
 LEVEL_TEXT = ("Every content of <= 3 lines over a line alphabet with one symbol per phrase x letter case x position, every "
               "mapping/sequence value to depth 2 in 4 renderings with 0-2 noise lines, every proper prefix of three documents, every "
               "token string up to 3/4 tokens, every log of <= 4/5 lines x every query (terms, all/any, limit, direction; time x terms x "
-              "format kind) is run through the real classes; the outcome is compared with the documented rule. No sampling: the "
+              "format kind incl. format lists and dicts that mix year-less formats with formats that have a year) is run through the real classes; the outcome is compared with the documented rule. No sampling: the "
               "statement is 'no counterexample within the bound'.")
 LEVEL_NOTE = ("Trusted: json.loads / yaml safe loaders as decoders, the reference models in ref/c14_models.py (each cross-checked against "
               "a second formulation on every run); lenient outcomes are accepted where the documentation is loose (listed in ASSUMPTIONS).")
